@@ -187,6 +187,27 @@ impl SessionRun {
         SessionRun { fut: Some(Box::pin(fut)), script, cmd_rx, _cmd_tx: cmd_tx, sig_tx: Some(sig_tx), done: false, panicked: false, _guard: rt }
     }
 
+    /// The same session on a runtime whose clock stands still until `advance` moves it.
+    pub fn new_paused() -> Self {
+        let rt = tokio::runtime::Builder::new_current_thread().enable_all().start_paused(true).build().unwrap();
+        let script = Arc::new(Mutex::new(Script::default()));
+        let (cmd_tx, cmd_rx) = broadcast::channel::<Object>(8192);
+        let (sig_tx, sig_rx) = broadcast::channel::<Object>(glonax::consts::QUEUE_SIZE_SIGNAL);
+        let fut = {
+            let _enter = rt.enter();
+            glonax::service::UnixServer::verif_client_session(Transport(script.clone()), cmd_tx.clone(), sig_rx)
+        };
+        SessionRun { fut: Some(Box::pin(fut)), script, cmd_rx, _cmd_tx: cmd_tx, sig_tx: Some(sig_tx), done: false, panicked: false, _guard: rt }
+    }
+
+    /// Let `ms` milliseconds of the runtime's time pass (every timer due by then fires), then run the session until it blocks.
+    pub fn advance(&mut self, ms: u64) {
+        self._guard.block_on(async {
+            tokio::time::advance(std::time::Duration::from_millis(ms)).await;
+        });
+        self.poll_quiescent();
+    }
+
     fn poll_quiescent(&mut self) {
         let waker = noop_waker();
         let mut cx = Context::from_waker(&waker);
@@ -322,6 +343,36 @@ fn run_case_full(out: &mut Out, inst_tok: &str, tag: &str, evs: &[Ev], nontrivia
     if wfail {
         out.count("transport: writes fail (peer gone)");
     }
+}
+
+/// A case in which time passes at given points: `stalls` = (index of the event AFTER which it passes, milliseconds). What a
+/// session does depends on the bytes, signals and terminations it sees, not on how long its client took.
+pub fn run_case_stalls(out: &mut Out, inst_tok: &str, tag: &str, evs: &[Ev], stalls: &[(usize, u64)]) {
+    let ins: Vec<String> = evs.iter().map(ev_tok).collect();
+    let evs2: Vec<Ev> = evs.to_vec();
+    let stalls2: Vec<(usize, u64)> = stalls.to_vec();
+    let (tx, rx) = std::sync::mpsc::channel::<Vec<String>>();
+    let worker = std::thread::spawn(move || {
+        let mut s = SessionRun::new_paused();
+        let mut outs = vec![];
+        for (i, e) in evs2.iter().enumerate() {
+            outs.push(s.event(e));
+            for (k, ms) in &stalls2 {
+                if *k == i {
+                    s.advance(*ms);
+                }
+            }
+        }
+        let _ = tx.send(outs);
+    });
+    match rx.recv_timeout(std::time::Duration::from_secs(10)) {
+        Ok(outs) => {
+            let _ = worker.join();
+            out.case(&format!("{} {} {}", tag, inst_tok, ins.join(" ")), &outs.join(" "), true);
+        }
+        Err(_) => out.case(&format!("{} {} {}", tag, inst_tok, ins.join(" ")), "HANG", true),
+    }
+    out.count("session case with time passing inside / between frames");
 }
 
 /// Run a whole case and emit it: `<inst> <ev>… => <out>…`.
